@@ -142,6 +142,9 @@ def main():
             old = json.load(open(path))
         except ValueError:
             old = {}
+    verified = dict(old.get('verified', {}))
+    verified.update(result['verified'])
+    result['verified'] = verified
     old.update({'property': meta.get('property'),
                 'breaks': meta.get('summary'),
                 'needs': meta.get('needs'),
